@@ -52,7 +52,7 @@ def iterate (cf : CF) (s : Snap) : Nat → Table → Table
 def minCost (cf : CF) (s : Snap) : Table := iterate cf s (4 * s.classes.length + 4) []
 
 /-- **the checker**: (1) closed — every node of a live class whose children all have entries gives an
-upper bound for the class's entry, which must exist; (2) attained — every entry is the cost of one of
+upper bound for the class's entry, which must exist; (2) attained — every entry belongs to a live class and is the cost of one of
 the class's nodes over the children's entries. -/
 def checkTable (cf : CF) (s : Snap) (t : Table) : Bool :=
   (s.classes.all fun c =>
@@ -64,6 +64,7 @@ def checkTable (cf : CF) (s : Snap) (t : Table) : Bool :=
         | some k => k ≤ nodeCost cf e.1.v ks
         | none => false) &&
   (t.all fun p =>
+    s.isAlive p.1 &&
     match s.cls p.1 with
     | none => false
     | some c => c.nodes.any fun e =>
